@@ -316,3 +316,12 @@ package clickhouse_planner
 //@     step not-equal: s.Ops[rangeindex] == "!=" ==> mLiteral(clauses[rangeindex], "!=", s.Values[rangeindex])
 //@     step matches: s.Ops[rangeindex] == "=~" ==> mRegex(clauses[rangeindex], 1, s.Values[rangeindex])
 //@     step matches-not: s.Ops[rangeindex] == "!~" ==> mRegex(clauses[rangeindex], 0, s.Values[rangeindex])
+
+// A prepared plan is executed again and again (live tailing: once a second, each
+// time with a new context whose alias counter starts at 1). The sub-selects that
+// the stages of ONE statement share are cached in the planner; an execution starts
+// without them, so nothing built for an earlier statement - with that statement's
+// aliases and time bounds - is spliced into this one.
+//@ func (*planner).Process [C14]
+//@   flag checks=-index,-assert
+//@   at SQLRequestPlanner).Process execution-starts-without-cached-sub-selects: p.fpCache == nil && p.labelsCache == nil
